@@ -590,6 +590,7 @@ Section Search.
         intros y Hy. destruct (Hin y Hy) as [A|A]; [apply A0, A|apply A1, A].
   Qed.
   (* ---------- the loop invariant of the search ---------- *)
+  Section OneSearch.
 
   Variable xs : list keyed.
   Variable sum : Z.
@@ -822,5 +823,239 @@ Section Search.
         rewrite Forall_forall in xs_fin, Hvx.
         destruct (Hall x Hx) as [A|A]; [|rewrite (fin_inf _ (xs_fin x Hx)) in A; discriminate].
         apply lt_asym; [apply Hvx, Hx|apply fin_valid, Hm|exact A].
+  Qed.
+  End OneSearch.
+
+  (* ---------- every node of the recursion is balanced ---------- *)
+
+  Notation item := (item C).
+  Notation rcb_rec := (rcb_rec C ltb leb mid dist addc zero inf within_tol false true true).
+  Notation reorder_split := (reorder_split C ltb leb).
+  Notation BalTree := (BalTree C ltb within_tol).
+
+  Definition fitem (it : item) : Prop := Forall (fun c => fin c = true) (co it) /\ 0 <= wt it.
+  (* every bound of the box is finite and encloses the items on its axis *)
+  Definition BoxOK (bb : box C) (its : list item) : Prop :=
+    forall a mn mx, nth_opt bb a = Some (mn, mx) ->
+      fin mn = true /\ fin mx = true
+      /\ forall it c, In it its -> nth_opt (co it) a = Some c -> ltb c mn = false /\ ltb mx c = false.
+  Definition wit (x : item * N) : witem C := (co (fst x), wt (fst x), snd x).
+  Definition tw (its : list item) : Z := sumZ (map wt its).
+
+  Lemma tw_app a b : tw (a ++ b) = tw a + tw b.
+  Proof. unfold tw. rewrite map_app. apply sumZ_app. Qed.
+  Lemma tw_perm a b : Permutation a b -> tw a = tw b.
+  Proof.
+    unfold tw, sumZ. induction 1 as [|x a b H IH|x y a|a b c H1 IH1 H2 IH2]; cbn [map fold_right]; lia.
+  Qed.
+
+  Lemma wsum_aw_of (ks : list keyed) : wsum (aw_of ks) = tw (map snd ks).
+  Proof. unfold Rcb.wsum, aw_of, tw. rewrite !map_map. reflexivity. Qed.
+
+  Lemma keys_of_keyed a (l : list keyed) :
+    Forall (fun x => nth_opt (co (snd x)) a = Some (fst x)) l -> keys C a (map snd l) = Some l.
+  Proof.
+    induction 1 as [|[c it] l Hx _ IH]; cbn [map keys snd fst] in *; [reflexivity|].
+    rewrite Hx, IH. reflexivity.
+  Qed.
+
+  Lemma keys_perm a (its its' : list item) : Permutation its its' -> forall ks, keys C a its = Some ks ->
+    exists ks', keys C a its' = Some ks' /\ Permutation ks ks'.
+  Proof.
+    induction 1 as [|it l l' H IH|it1 it2 l|l1 l2 l3 H1 IH1 H2 IH2]; intros ks Hk.
+    - exists ks. split; [exact Hk|apply Permutation_refl].
+    - cbn [keys] in *. destruct (nth_opt (co it) a) as [c|]; [|discriminate].
+      destruct (keys C a l) as [r|]; [|discriminate]. inversion Hk; subst.
+      destruct (IH r eq_refl) as (r' & -> & Pr). exists ((c, it) :: r'). split; [reflexivity|apply perm_skip, Pr].
+    - cbn [keys] in *. destruct (nth_opt (co it2) a) as [c2|]; [|discriminate].
+      destruct (nth_opt (co it1) a) as [c1|]; [|destruct (keys C a l); discriminate].
+      destruct (keys C a l) as [r|]; [|discriminate]. inversion Hk; subst.
+      exists ((c1, it1) :: (c2, it2) :: r). split; [reflexivity|apply perm_swap].
+    - destruct (IH1 ks Hk) as (k2 & A2 & P2). destruct (IH2 k2 A2) as (k3 & A3 & P3).
+      exists k3. split; [exact A3|eapply perm_trans; eassumption].
+  Qed.
+
+  Lemma axis_w_wit a (asg : list (item * N)) ks :
+    keys C a (map fst asg) = Some ks -> axis_w C a (map wit asg) = Some (aw_of ks).
+  Proof.
+    revert ks; induction asg as [|[it id] t IH]; intros ks H; cbn [map keys axis_w wit fst snd] in *.
+    - inversion H; reflexivity.
+    - destruct (nth_opt (co it) a) as [c|]; [|discriminate].
+      destruct (keys C a (map fst t)) as [r|]; [|discriminate]. inversion H; subst.
+      rewrite (IH r eq_refl). reflexivity.
+  Qed.
+
+  Lemma map_wp_wit (asg : list (item * N)) : map (wp C) (map wit asg) = map (pit C) asg.
+  Proof. rewrite map_map. apply map_ext. intros [it id]. reflexivity. Qed.
+
+  Lemma aw_filter_side (ks l r : list keyed) (f : C * Z -> bool) :
+    Permutation (l ++ r) ks ->
+    (forall y, In y l -> f (fst y, wt (snd y)) = true) -> (forall y, In y r -> f (fst y, wt (snd y)) = false) ->
+    Permutation (aw_of l) (filter f (aw_of ks)) /\ Permutation (aw_of r) (filter (fun q => negb (f q)) (aw_of ks)).
+  Proof.
+    intros Hp Hl Hr.
+    assert (P : Permutation (aw_of l ++ aw_of r) (aw_of ks)).
+    { unfold aw_of. rewrite <- map_app. apply Permutation_map, Hp. }
+    split.
+    - eapply perm_trans; [|apply filter_Permutation, P]. rewrite filter_app.
+      rewrite (filter_all _ (aw_of l)), (filter_none _ (aw_of r)); [rewrite app_nil_r; apply Permutation_refl| |].
+      + intros q Hq. unfold aw_of in Hq. apply in_map_iff in Hq. destruct Hq as (y & <- & Hy). apply Hr, Hy.
+      + intros q Hq. unfold aw_of in Hq. apply in_map_iff in Hq. destruct Hq as (y & <- & Hy). apply Hl, Hy.
+    - eapply perm_trans; [|apply filter_Permutation, P]. rewrite filter_app.
+      rewrite (filter_none _ (aw_of l)), (filter_all _ (aw_of r)); [apply Permutation_refl| |].
+      + intros q Hq. unfold aw_of in Hq. apply in_map_iff in Hq. destruct Hq as (y & <- & Hy). rewrite (Hr y Hy). reflexivity.
+      + intros q Hq. unfold aw_of in Hq. apply in_map_iff in Hq. destruct Hq as (y & <- & Hy). rewrite (Hl y Hy). reflexivity.
+  Qed.
+
+  Lemma fitem_vitem it : fitem it -> vitem C valid it.
+  Proof. intros [H _]. unfold vitem. rewrite Forall_forall in *. intros c Hc. apply fin_valid, H, Hc. Qed.
+
+  Theorem rcb_rec_balanced : forall k fuel sched D its iter_id a sum bb asg,
+    Forall fitem its -> BoxOK bb its -> sum = tw its ->
+    rcb_rec fuel sched D k its iter_id a sum bb = Ok asg ->
+    BalTree D k a (map wit asg).
+  Proof.
+    induction k as [|k IH]; intros fuel sched D its iter_id a sum bb asg Hf Hbox Hsum H.
+    - apply bal_leaf. rewrite map_wp_wit.
+      destruct its as [|it0 t]; cbn [Rcb.rcb_rec] in H; inversion H; subst; [intros x y []|].
+      intros x y Hx Hy. change ((it0, iter_id) :: map (fun it : item => (it, iter_id)) t)
+          with (map (fun it : item => (it, iter_id)) (it0 :: t)) in Hx, Hy.
+      rewrite map_map in Hx, Hy. apply in_map_iff in Hx, Hy.
+      destruct Hx as (? & <- & _), Hy as (? & <- & _). reflexivity.
+    - destruct its as [|it0 t].
+      { rewrite (rcb_rec_nil C ltb leb mid dist addc zero inf within_tol false true true) in H.
+        inversion H; subst. apply bal_leaf. intros x y []. }
+      set (its := it0 :: t) in *.
+      assert (Hv : Forall (vitem C valid) its).
+      { rewrite Forall_forall in *. intros it Hit. apply fitem_vitem, Hf, Hit. }
+      pose proof H as Hcall.
+      cbn [Rcb.rcb_rec] in H. fold its in H.
+      destruct (nth_opt bb a) as [[mn mx]|] eqn:Ebb; [|discriminate].
+      destruct (keys C a its) as [xs|] eqn:Hk; [|discriminate].
+      destruct (keys_spec C a its xs Hk) as [Hm Hc].
+      pose proof (vkey_of_keys C valid a its xs Hk Hv) as Hvx.
+      destruct (Hbox a mn mx Ebb) as (Hmn & Hmx & Hencl).
+      assert (Hxf : Forall fkey xs).
+      { rewrite Forall_forall in *. intros x Hx. unfold fkey. specialize (Hc x Hx).
+        assert (Hit : In (snd x) its) by (rewrite <- Hm; apply in_map, Hx).
+        destruct (Hf _ Hit) as [Hco _]. rewrite Forall_forall in Hco. apply Hco. eapply nth_opt_In; exact Hc. }
+      assert (Hxn : Forall (fun x : keyed => 0 <= wt (snd x)) xs).
+      { rewrite Forall_forall in *. intros x Hx.
+        assert (Hit : In (snd x) its) by (rewrite <- Hm; apply in_map, Hx). apply (Hf _ Hit). }
+      assert (Hst : sum = wsum (aw_of xs)) by (rewrite wsum_aw_of, Hm; exact Hsum).
+      assert (Hencl' : forall q, In q (aw_of xs) -> ltb (fst q) mn = false /\ ltb mx (fst q) = false).
+      { intros q Hq. unfold aw_of in Hq. apply in_map_iff in Hq. destruct Hq as (x & <- & Hx). cbn [fst].
+        rewrite Forall_forall in Hc. apply (Hencl (snd x)); [rewrite <- Hm; apply in_map, Hx|apply Hc, Hx]. }
+      destruct (search fuel (sched iter_id) 0 xs sum mn mx None) as [sr|e|s|] eqn:Hsr; cbn [bind] in H; try discriminate.
+      pose proof (search_post xs sum Hxf Hxn Hst fuel (sched iter_id) 0%nat mn mx None sr Hmn Hmx
+                    (or_intror (fun q Hq => proj1 (Hencl' q Hq))) (or_intror (fun q Hq => proj2 (Hencl' q Hq))) Hsr) as HP.
+      (* the two sides *)
+      assert (Hsides : exists l r wl pos,
+        (match sr with
+         | AllLeft pos => Ok (xs, [], sum, pos)
+         | SplitAt i wl pos _ => bind (reorder_split xs i) (fun lr => Ok (fst lr, snd lr, wl, pos))
+         end) = Ok (l, r, wl, pos)
+        /\ Permutation (l ++ r) xs /\ fin pos = true
+        /\ (forall y, In y l -> ltb (fst y) pos = true \/ (r = [] /\ ltb pos (fst y) = false))
+        /\ (forall y, In y r -> ltb (fst y) pos = false)
+        /\ wl = tw (map snd l)
+        /\ (forall cl ch, Permutation (aw_of l) cl -> Permutation (aw_of r) ch -> bob cl ch)
+        /\ (r = [] \/ exists p, valid p = true /\ Forall (fun y => ltb (fst y) p = true) l
+                              /\ Forall (fun y => ltb (fst y) p = false) r)).
+      { destruct sr as [i wl pos why|pos].
+        - destruct HP as (p & Hp & Hpos & Heq & Hwl & Hbob).
+          destruct (reorder_split xs i) as [[l r]|e|s|] eqn:Hr; cbn [bind] in H; try discriminate.
+          destruct (reorder_split_inv C ltb leb valid lt_irrefl le_lt xs i l r Hvx Hr) as (p' & Hp' & A & B & B2).
+          rewrite Hp in Hp'. inversion Hp'; subst p'. clear Hp'.
+          assert (Hinl : forall y, In y l -> In (fst y, wt (snd y)) (aw_of xs)).
+          { intros y Hy. apply aw_in. eapply Permutation_in; [exact A|apply in_or_app; left; exact Hy]. }
+          assert (Hinr : forall y, In y r -> In (fst y, wt (snd y)) (aw_of xs)).
+          { intros y Hy. apply aw_in. eapply Permutation_in; [exact A|apply in_or_app; right; exact Hy]. }
+          assert (Hl' : forall y, In y l -> ltb (fst y) pos = true).
+          { intros y Hy. rewrite Forall_forall in B. pose proof (Heq _ (Hinl y Hy)) as E. cbn [fst] in E. rewrite <- E. apply B, Hy. }
+          assert (Hr' : forall y, In y r -> ltb (fst y) pos = false).
+          { intros y Hy. rewrite Forall_forall in B2. pose proof (Heq _ (Hinr y Hy)) as E. cbn [fst] in E. rewrite <- E. apply B2, Hy. }
+          destruct (aw_filter_side xs l r (fun q => ltb (fst q) pos) A Hl' Hr') as [PLs PRs].
+          exists l, r, wl, pos. cbn [bind fst snd]. split; [reflexivity|]. split; [exact A|]. split; [exact Hpos|].
+          split; [intros y Hy; left; apply Hl', Hy|]. split; [exact Hr'|]. split; [|split].
+          + rewrite Hwl. unfold Wl. rewrite <- (wsum_perm C _ _ PLs). apply wsum_aw_of.
+          + intros cl ch Pcl Pch. eapply (bob_perm C ltb within_tol); [| |exact Hbob].
+            * eapply perm_trans; [apply Permutation_sym, PLs|exact Pcl].
+            * eapply perm_trans; [apply Permutation_sym, PRs|exact Pch].
+          + right. exists (fst p). split; [|split; [exact B|exact B2]].
+            rewrite Forall_forall in Hvx. apply Hvx. eapply nth_opt_In; exact Hp.
+        - destruct HP as (Hbob & Hpos & Hle).
+          exists xs, [], sum, pos. split; [reflexivity|]. split; [rewrite app_nil_r; apply Permutation_refl|].
+          split; [exact Hpos|]. split; [|split; [intros y []|split; [|split]]].
+          + intros y Hy. right. split; [reflexivity|]. apply (Hle (fst y, wt (snd y))), aw_in, Hy.
+          + rewrite Hm. exact Hsum.
+          + intros cl ch Pcl Pch. apply Permutation_nil in Pch. subst ch.
+            eapply (bob_perm C ltb within_tol); [exact Pcl|apply Permutation_refl|exact Hbob].
+          + left; reflexivity. }
+      destruct Hsides as (l & r & wl & pos & Hs & Hperm & Hpos & Hl & Hr & Hwl & Hbob & Hpiv).
+      rewrite Hs in H. cbn [bind] in H.
+      destruct (rcb_rec fuel sched D k (map snd l) (2 * iter_id + 1)%N ((a + 1) mod D)%nat wl
+                        (set_nth bb a (mn, pos))) as [L|e|s|] eqn:HL; cbn [bind] in H; try discriminate.
+      destruct (rcb_rec fuel sched D k (map snd r) (2 * iter_id + 2)%N ((a + 1) mod D)%nat (sum - wl)
+                        (set_nth bb a (pos, mx))) as [R|e|s|] eqn:HR; cbn [bind] in H; try discriminate.
+      inversion H; subst asg. clear H.
+      (* items of the two sides *)
+      assert (Hsub : forall it, In it (map snd l) \/ In it (map snd r) -> In it its).
+      { intros it Hit. rewrite <- Hm. eapply Permutation_in; [apply Permutation_map, Hperm|].
+        rewrite map_app. apply in_or_app. exact Hit. }
+      assert (Hfl : Forall fitem (map snd l)).
+      { rewrite Forall_forall in *. intros it Hit. apply Hf, Hsub. left; exact Hit. }
+      assert (Hfr : Forall fitem (map snd r)).
+      { rewrite Forall_forall in *. intros it Hit. apply Hf, Hsub. right; exact Hit. }
+      assert (Hvl : Forall (vitem C valid) (map snd l)).
+      { rewrite Forall_forall in *. intros it Hit. apply fitem_vitem, Hfl, Hit. }
+      assert (Hvr : Forall (vitem C valid) (map snd r)).
+      { rewrite Forall_forall in *. intros it Hit. apply fitem_vitem, Hfr, Hit. }
+      destruct (rcb_rec_spec C ltb leb mid dist addc zero inf within_tol false true true valid
+                  lt_irrefl lt_negtrans le_lt _ _ _ _ _ _ _ _ _ _ Hvl HL) as (PL & _ & RL).
+      destruct (rcb_rec_spec C ltb leb mid dist addc zero inf within_tol false true true valid
+                  lt_irrefl lt_negtrans le_lt _ _ _ _ _ _ _ _ _ _ Hvr HR) as (PR & _ & RR).
+      (* key of each element of l, r *)
+      assert (Hcl : Forall (fun x : keyed => nth_opt (co (snd x)) a = Some (fst x)) l).
+      { rewrite Forall_forall in *. intros x Hx. apply Hc. eapply Permutation_in; [exact Hperm|apply in_or_app; left; exact Hx]. }
+      assert (Hcr : Forall (fun x : keyed => nth_opt (co (snd x)) a = Some (fst x)) r).
+      { rewrite Forall_forall in *. intros x Hx. apply Hc. eapply Permutation_in; [exact Hperm|apply in_or_app; right; exact Hx]. }
+      destruct (keys_perm a (map snd l) (map fst L) (Permutation_sym PL) l (keys_of_keyed a l Hcl)) as (kl & Kl & Pkl).
+      destruct (keys_perm a (map snd r) (map fst R) (Permutation_sym PR) r (keys_of_keyed a r Hcr)) as (kr & Kr & Pkr).
+      (* boxes of the children *)
+      assert (HboxL : BoxOK (set_nth bb a (mn, pos)) (map snd l)).
+      { intros a' mn' mx' Hn. destruct (Nat.eq_dec a a') as [<-|Hne].
+        - rewrite nth_opt_set_nth_same in Hn by (eapply nth_opt_Some; exact Ebb). inversion Hn; subst mn' mx'.
+          split; [exact Hmn|]. split; [exact Hpos|]. intros it c Hit Hco.
+          apply in_map_iff in Hit. destruct Hit as (x & <- & Hx). rewrite Forall_forall in Hcl.
+          rewrite (Hcl x Hx) in Hco. inversion Hco; subst c. split.
+          + apply (Hencl' (fst x, wt (snd x))). apply aw_in. eapply Permutation_in; [exact Hperm|apply in_or_app; left; exact Hx].
+          + destruct (Hl x Hx) as [Q|[_ Q]]; [|exact Q].
+            rewrite Forall_forall in Hvx. apply lt_asym; [apply Hvx; eapply Permutation_in; [exact Hperm|apply in_or_app; left; exact Hx]|apply fin_valid, Hpos|exact Q].
+        - rewrite nth_opt_set_nth_other in Hn by exact Hne. destruct (Hbox a' mn' mx' Hn) as (A1 & A2 & A3).
+          split; [exact A1|]. split; [exact A2|]. intros it c Hit Hco. apply (A3 it c); [apply Hsub; left; exact Hit|exact Hco]. }
+      assert (HboxR : BoxOK (set_nth bb a (pos, mx)) (map snd r)).
+      { intros a' mn' mx' Hn. destruct (Nat.eq_dec a a') as [<-|Hne].
+        - rewrite nth_opt_set_nth_same in Hn by (eapply nth_opt_Some; exact Ebb). inversion Hn; subst mn' mx'.
+          split; [exact Hpos|]. split; [exact Hmx|]. intros it c Hit Hco.
+          apply in_map_iff in Hit. destruct Hit as (x & <- & Hx). rewrite Forall_forall in Hcr.
+          rewrite (Hcr x Hx) in Hco. inversion Hco; subst c. split.
+          + apply Hr, Hx.
+          + apply (Hencl' (fst x, wt (snd x))). apply aw_in. eapply Permutation_in; [exact Hperm|apply in_or_app; right; exact Hx].
+        - rewrite nth_opt_set_nth_other in Hn by exact Hne. destruct (Hbox a' mn' mx' Hn) as (A1 & A2 & A3).
+          split; [exact A1|]. split; [exact A2|]. intros it c Hit Hco. apply (A3 it c); [apply Hsub; right; exact Hit|exact Hco]. }
+      assert (Hwr : sum - wl = tw (map snd r)).
+      { rewrite Hwl, Hsum, <- Hm, <- (tw_perm _ _ (Permutation_map snd Hperm)), map_app, tw_app.
+        unfold Rcb.keyed in *. lia. }
+      pose proof (IH _ _ _ _ _ _ _ _ _ Hfl HboxL Hwl HL) as TL.
+      pose proof (IH _ _ _ _ _ _ _ _ _ Hfr HboxR Hwr HR) as TR.
+      rewrite map_app.
+      eapply bal_node with (cl := aw_of kl) (ch := aw_of kr); [| |apply axis_w_wit, Kl|apply axis_w_wit, Kr| |exact TL|exact TR].
+      + intros x y Hx Hy. apply (in_map (wp C)) in Hx, Hy. rewrite map_wp_wit in Hx, Hy.
+        destruct Hpiv as [->|(p & Hp & Bl & Br)].
+        * cbn [map] in PR. apply Permutation_sym, Permutation_nil in PR. destruct R; [destruct Hy|discriminate].
+        * exact (node_below C ltb valid lt_negtrans a xs l r p L R Hvx Hc Hperm Bl Br Hp PL PR _ _ Hx Hy).
+      + rewrite !map_wp_wit. exact (node_disjoint C k iter_id L R RL RR).
+      + apply Hbob; unfold aw_of; apply Permutation_map; assumption.
   Qed.
 End Search.
